@@ -5,6 +5,8 @@ import (
 	"fmt"
 	"log/slog"
 	"strings"
+	"sync"
+	"sync/atomic"
 
 	"github.com/goblimey/go-ntrip/rtcm/handler"
 	"github.com/goblimey/go-ntrip/rtcm/type1005"
@@ -395,6 +397,42 @@ func monC05(c *child.Ctx, replay json.RawMessage) {
 				break
 			}
 		}
+	}
+	// several goroutines displaying their own messages at the same time (the proxy's
+	// sessions, the filter's display and report): each text is that of its own message
+	{
+		nd := c.Share(c.Pick(40000, 800000))
+		var wg sync.WaitGroup
+		var bad atomic.Value
+		for g := 0; g < 4; g++ {
+			wg.Add(1)
+			go func(g int) {
+				defer wg.Done()
+				rr := ref.NewRand(r.Uint64() + uint64(g))
+				for i := 0; i < nd/4 && bad.Load() == nil; i++ {
+					t := 1005 + (i+g)%2
+					b := gen.RandBase(rr, t)
+					b.Trailing = nil
+					_, text, err := decodeBaseDirect(t, ref.Frame(ref.EncodeBase(b, t)), slog.LevelInfo)
+					if err != nil {
+						continue
+					}
+					if why := checkBaseText(b, text); why != "" {
+						cj, _ := json.Marshal(baseCase{B: b, TypeField: t, Cut: -1})
+						bad.Store([2]string{fmt.Sprintf("type %d String while three other goroutines display their own messages: %s", t, why), string(cj)})
+					}
+					if i%64 == 0 {
+						tick()
+					}
+				}
+			}(g)
+		}
+		wg.Wait()
+		if v := bad.Load(); v != nil {
+			c.Violate("display-not-exact", v.([2]string)[0], []byte(v.([2]string)[1]))
+		}
+		c.Count("concurrent_displays_checked", int64(nd))
+		c.EvalN(1)
 	}
 	// results that are kept: a decoded message must not change when later messages are
 	// decoded (the caller - the proxy's report queue, a display goroutine - still holds it)
